@@ -198,7 +198,10 @@ def make_case(rng, person=None):
                            'padding': True, 'return_set': True}
         if measure == 'OVERLAP':
             kind = rng.choice(['SizeFilter', 'PrefixFilter', 'PositionFilter', 'OverlapFilter'])
-            fspec = {'kind': kind, 'measure': 'OVERLAP', 'threshold': call['threshold'],
+            import math
+            # an overlap of at least 2.5 is an overlap of at least 3: the (integer) overlap size is
+            # what the size / prefix / position filters are parameterised with
+            fspec = {'kind': kind, 'measure': 'OVERLAP', 'threshold': int(math.ceil(call['threshold'])),
                      'overlap_size': 1, 'comp_op': '>='}
         elif measure == 'OVERLAP_COEFFICIENT':
             fspec = {'kind': 'OverlapFilter', 'overlap_size': 1, 'comp_op': '>='}
